@@ -287,7 +287,8 @@ def run(ctx):
     # deviations that could not be tied to the statement only decide (exit 2) when there is no such violation
     uniq = {}
     for v in acc.violations:
-        uniq.setdefault(v.key, v)
+        if v.key not in uniq or getattr(v, "count", 0) > getattr(uniq[v.key], "count", 0):
+            uniq[v.key] = v
     acc.violations = list(uniq.values())
     other = [v for v in acc.violations if v.key not in acc.known_keys]
     for e in errs:
